@@ -165,6 +165,7 @@ struct Sim {
     steps: u64,
     work: u64,
     baseline_steps: u64,
+    baseline_work: u64,
     baseline_cap: u64,
     step_budget: u64,
     call_seq: u64,
@@ -192,6 +193,7 @@ impl Sim {
             steps: 0,
             work: 0,
             baseline_steps: 0,
+            baseline_work: 0,
             baseline_cap: 0,
             step_budget: 0,
             call_seq: 0,
@@ -306,7 +308,10 @@ fn probe(site: u32, arg: u64) {
                 let over = SIM.with(|s| {
                     let mut s = s.borrow_mut();
                     s.baseline_steps += 1;
-                    s.baseline_steps > s.baseline_cap
+                    // same deterministic work measure as in live mode (see there)
+                    let v = get_var_id() as u64;
+                    s.baseline_work += 1 + v * v / 1000;
+                    s.baseline_steps > s.baseline_cap || s.baseline_work > 10 * s.baseline_cap
                 });
                 if over {
                     std::panic::panic_any(AbortBaseline);
@@ -479,7 +484,11 @@ fn run_plain(q: &QuerySpec, kb: &KnowledgeBase, reset: bool, cap_answers: usize)
     if q.class == QueryClass::Diverges {
         return Ok(Baseline { answers: vec![], outs: vec![], final_out: None, complete: false, steps: 0 });
     }
-    SIM.with(|s| s.borrow_mut().baseline_steps = 0);
+    SIM.with(|s| {
+        let mut s = s.borrow_mut();
+        s.baseline_steps = 0;
+        s.baseline_work = 0;
+    });
     let r = catch_unwind(AssertUnwindSafe(|| {
         if reset {
             start_query();
@@ -908,9 +917,22 @@ fn engine_main(jobs: std::sync::mpsc::Receiver<Job>, results: std::sync::mpsc::S
                     Err(poison) => poison.into_inner(),
                 };
                 sh.current = None;
-                sh.sched = None;
-                sh.record = None;
-                let _ = sh.results.send(RunOutcome::HarnessError(panic_message(&p)));
+                let sched = sh.sched.take();
+                let record = sh.record.take();
+                // An operation that was aborted inside solve/solve_all (engine panic, search not
+                // halted, budget) unwinds through a live ThreadTimer; shuttle skips its Drop while
+                // panicking, so the timer thread later blocks on a channel that is never closed and
+                // shuttle reports a deadlock when the run ends. The record is complete by then.
+                let aborted = record
+                    .as_ref()
+                    .and_then(|r| r.ops.last())
+                    .map(|o| matches!(o.result, OpResult::Panic(_) | OpResult::NoHalt { .. } | OpResult::Budget))
+                    .unwrap_or(false);
+                let outcome = match (record, sched) {
+                    (Some(rec), Some(st)) if aborted => RunOutcome::Done(finish_record(rec, &st.log)),
+                    _ => RunOutcome::HarnessError(panic_message(&p)),
+                };
+                let _ = sh.results.send(outcome);
             }
         }
     }
